@@ -1,7 +1,7 @@
 (* C19 -- the shell tool moves exactly the named bytes and trees, and terminates.
    Byte-copy half (nobodd/transfer.py); proofs live in Copy/Proofs.v.  The tree half
-   (nobodd/sh.py commands over host and image trees) is checked by the end-to-end
-   oracle in harness/props/c19.py only. *)
+   (nobodd/sh.py commands over host and image trees) is proved over Shell/Model.v, which is tied to
+   the real tool by harness/shell_corr.py, and checked end to end by the oracle in props/c19.py. *)
 From Coq Require Import List NArith Bool.
 From NV Require Import Lib.Res Gen.Copy Copy.Model Copy.Proofs.
 Import ListNotations.
@@ -46,3 +46,80 @@ Example C19_nonvacuous :
   copy_bytes 5 {| content := [1; 2; 3]; pos := 2; caps := [] |} false None = Ok [3] /\
   takes_fast_path (Some {| r_start := 1; r_stop := 200000; r_step := 1 |}) = false.
 Proof. repeat split; vm_compute; reflexivity. Qed.
+
+(* ---------------- tree half: nobodd/sh.py commands over abstract host / partition trees (Shell/Model.v) ---------------- *)
+From NV Require Import Shell.Model Shell.ProofsTree Shell.ProofsFrame Shell.ProofsCmd.
+
+(* shell half (nobodd/sh.py over host and partition trees, any name folding on partitions). cp of a file: the destination holds exactly the source bytes, the source is unchanged, every disjoint path resolves as before *)
+Theorem C19_cp_file_exact :
+  forall (fold : name -> name) (r : bool) (s d : path) (c : list N) (w w' : world) (x : unit), do_cp fold r [s] d w = (w', Ok x) -> wlookup fold w s = Some (File c) -> let t := dest_of fold w d s in w' = wput fold w t (File c) /\ wlookup fold w' t = Some (File c) /\ wlookup fold w' s = Some (File c) /\ (forall q : path, disjoint fold q t -> wlookup fold w' q = wlookup fold w q).
+Proof. exact Shell.ProofsCmd.cp_file_exact. Qed.
+Print Assumptions C19_cp_file_exact.
+
+(* cp -r of a directory: the destination is the merge of the old destination with the source tree (structure and bytes); equal to the source tree when the destination was missing *)
+Theorem C19_cp_r_tree_exact :
+  forall (fold : name -> name) (s d : path) (ch : list (name * node)) (w w' : world) (x : unit), do_cp fold true [s] d w = (w', Ok x) -> wlookup fold w s = Some (Dir ch) -> let t := dest_of fold w d s in let m := merge (key fold (fst t)) (wlookup fold w t) (Dir ch) in w' = wput fold w t m /\ wlookup fold w' t = Some m /\ (patheq fold s t = false -> wlookup fold w' s = Some (Dir ch)) /\ (forall q : path, disjoint fold q t -> wlookup fold w' q = wlookup fold w q) /\ (wlookup fold w t = None -> wfb (key fold (fst t)) (Dir ch) = true -> m = Dir ch).
+Proof. exact Shell.ProofsCmd.cp_r_tree_exact. Qed.
+Print Assumptions C19_cp_r_tree_exact.
+
+(* a copy into an image followed by a copy out returns the original tree (no two siblings equal up to the partition s name folding) *)
+Theorem C19_roundtrip :
+  forall (fold : name -> name) (w : world) (a b c : N * list name) (n : node), fst a = 0 -> fst b <> 0 -> fst c = 0 -> wlookup fold w a = Some n -> wfb fold n = true -> creatable fold w b -> creatable fold w c -> exists w1 w2 : world, do_cp fold true [a] b w = (w1, Ok tt) /\ do_cp fold true [b] c w1 = (w2, Ok tt) /\ wlookup fold w2 c = Some n /\ wlookup fold w2 b = Some n /\ (below fold a c = false -> wlookup fold w2 a = Some n).
+Proof. exact Shell.ProofsCmd.roundtrip. Qed.
+Print Assumptions C19_roundtrip.
+
+(* mv within one file system: the source is gone, the destination holds the old node, everything else unchanged *)
+Theorem C19_mv_moves :
+  forall (fold : name -> name) (s d : path) (n : node) (w w' : world) (x : unit), do_mv fold [s] d w = (w', Ok x) -> wlookup fold w s = Some n -> let t := dest_of fold w d s in fst s = fst t -> patheq fold s t = true /\ w' = w \/ patheq fold s t = false /\ w' = wrem fold (wput fold w t n) s /\ wlookup fold w' s = None /\ wlookup fold w' t = Some n /\ (forall q : path, disjoint fold q s -> disjoint fold q t -> wlookup fold w' q = wlookup fold w q).
+Proof. exact Shell.ProofsCmd.mv_moves. Qed.
+Print Assumptions C19_mv_moves.
+
+(* mv across file systems = copy and remove; identical to a rename when the target was missing *)
+Theorem C19_mv_across :
+  forall (fold : name -> name) (s d : path) (n : node) (w w' : world) (x : unit), do_mv fold [s] d w = (w', Ok x) -> wlookup fold w s = Some n -> is_root s = false -> let t := dest_of fold w d s in fst s <> fst t -> let m := merge (key fold (fst t)) (wlookup fold w t) n in w' = wrem fold (wput fold w t m) s /\ wlookup fold w' s = None /\ wlookup fold w' t = Some m /\ (forall q : path, disjoint fold q s -> disjoint fold q t -> wlookup fold w' q = wlookup fold w q) /\ (wlookup fold w t = None -> wfb (key fold (fst t)) n = true -> w' = wrem fold (wput fold w t n) s).
+Proof. exact Shell.ProofsCmd.mv_across. Qed.
+Print Assumptions C19_mv_across.
+
+(* removal removes exactly what was named *)
+Theorem C19_rm_removes_exactly :
+  forall (fold : name -> name) (r f : bool) (p : path) (n : node) (w w' : world) (x : unit), do_rm fold r f [p] w = (w', Ok x) -> wlookup fold w p = Some n -> is_root p = false -> w' = wrem fold w p /\ wlookup fold w' p = None /\ (forall q : path, disjoint fold q p -> wlookup fold w' q = wlookup fold w q) /\ (r = false -> exists c : list N, n = File c).
+Proof. exact Shell.ProofsCmd.rm_removes_exactly. Qed.
+Print Assumptions C19_rm_removes_exactly.
+
+Theorem C19_rm_dir_needs_r :
+  forall (fold : name -> name) (f : bool) (p : path) (ch : list (name * node)) (w : world), wlookup fold w p = Some (Dir ch) -> do_rm fold false f [p] w = (w, Err IsADirectory).
+Proof. exact Shell.ProofsCmd.rm_dir_needs_r. Qed.
+Print Assumptions C19_rm_dir_needs_r.
+
+Theorem C19_rmdir_removes_exactly :
+  forall (fold : name -> name) (p : path) (w w' : world) (x : unit), do_rmdir fold [p] w = (w', Ok x) -> wlookup fold w p = Some (Dir []) /\ is_root p = false /\ w' = wrem fold w p /\ wlookup fold w' p = None /\ (forall q : path, disjoint fold q p -> wlookup fold w' q = wlookup fold w q).
+Proof. exact Shell.ProofsCmd.rmdir_removes_exactly. Qed.
+Print Assumptions C19_rmdir_removes_exactly.
+
+Theorem C19_rmdir_nonempty_fails :
+  forall (fold : name -> name) (p : path) (e : name * node) (ch : list (name * node)) (w : world), wlookup fold w p = Some (Dir (e :: ch)) -> is_root p = false -> do_rmdir fold [p] w = (w, Err NotEmpty).
+Proof. exact Shell.ProofsCmd.rmdir_nonempty_fails. Qed.
+Print Assumptions C19_rmdir_nonempty_fails.
+
+(* EVERY command, whatever its outcome, changes only paths at or below the ones it names as written *)
+Theorem C19_command_frame :
+  forall (fold : name -> name) (c : cmd) (w w' : world) (r : res (list N)), exec fold c w = (w', r) -> frame fold (written c) w w'.
+Proof. exact Shell.ProofsFrame.command_frame. Qed.
+Print Assumptions C19_command_frame.
+
+(* in particular a failing command *)
+Theorem C19_failing_command_frame :
+  forall (fold : name -> name) (c : cmd) (w w' : world) (e : exn) (q : path), exec fold c w = (w', Err e) -> (forall p : path, In p (written c) -> disjoint fold q p) -> wlookup fold w' q = wlookup fold w q.
+Proof. exact Shell.ProofsFrame.failing_command_frame. Qed.
+Print Assumptions C19_failing_command_frame.
+
+(* cat = concatenation *)
+Theorem C19_cat_concat :
+  forall (fold : name -> name) (w : world) (srcs : list path) (cs : list (list N)), Forall2 (fun (s : path) (c : list N) => wlookup fold w s = Some (File c)) srcs cs -> do_cat fold srcs None w = (w, Ok (concat cs)).
+Proof. exact Shell.ProofsCmd.cat_concat. Qed.
+Print Assumptions C19_cat_concat.
+
+Theorem C19_cat_concat_o :
+  forall (fold : name -> name) (w : world) (srcs : list path) (cs : list (list N)) (o : path), Forall2 (fun (s : path) (c : list N) => wlookup fold w s = Some (File c)) srcs cs -> creatable fold w o \/ (exists c0 : list N, wwalk fold w o = LNode (File c0)) -> Forall (fun s : path => disjoint fold s o) srcs -> let w' := wput fold w o (File (concat cs)) in do_cat fold srcs (Some o) w = (w', Ok []) /\ wlookup fold w' o = Some (File (concat cs)) /\ (forall q : path, disjoint fold q o -> wlookup fold w' q = wlookup fold w q).
+Proof. exact Shell.ProofsCmd.cat_concat_o. Qed.
+Print Assumptions C19_cat_concat_o.
